@@ -461,23 +461,51 @@ TrainMatches(spec, obs) ==
     /\ Len(obs.per) = Cardinality(DOMAIN spec.per)
     /\ \A i \in DOMAIN obs.per : obs.per[i].id \in DOMAIN spec.per /\ obs.per[i].st = spec.per[obs.per[i].id]
 
-(* obs tables are records keyed by id (the driver's lists converted by the check), plus n<kind> = list lengths *)
-Matches(c, ts, obs) ==
+(* obs tables are records keyed by id (the driver's lists converted by the check) *)
+SnapMatches(c, ts, obs) ==
     /\ \A k \in {"pb", "sb", "pd", "sd", "per", "rev", "to"} : obs[k] = ts[k]
     /\ DOMAIN obs.seg = DOMAIN ts.seg /\ \A s \in DOMAIN ts.seg : NormSeg(obs.seg[s]) = NormSeg(ts.seg[s])
     /\ DOMAIN obs.bst = DOMAIN ts.bst /\ \A b \in DOMAIN ts.bst : NormBst(obs.bst[b]) = NormBst(ts.bst[b])
     /\ DOMAIN obs.trn = DOMAIN ts.trn /\ \A t \in DOMAIN ts.trn : TrainMatches(ts.trn[t], obs.trn[t])
+
+PositionMatches(c, ts, t, o) ==
+    LET P == Position(c, ts, t) IN
+    /\ {o.segs[i] : i \in DOMAIN o.segs} = P /\ Len(o.segs) >= Cardinality(P)
+    /\ P # {} => (IF o.left = 1 THEN 0 ELSE 1) \in ts.trn[t].oris
+
+Matches(c, ts, obs) ==
+    /\ SnapMatches(c, ts, obs)
     /\ DOMAIN obs.boards = DOMAIN ts.conn
     /\ \A b \in DOMAIN ts.conn : /\ obs.boards[b].conn = ts.conn[b]
                                  /\ ts.conn[b] = 1 => obs.boards[b].addr = ts.addr[b]
                                  /\ obs.boards[b].uid = Uid(c, b)
     (* derived train getters (C08): position, on-track flag, speed getters *)
     /\ \A t \in DOMAIN ts.trn :
-          LET o == obs.tpos[t]  P == Position(c, ts, t) IN
+          LET o == obs.tpos[t] IN
           /\ o.on = ts.trn[t].on
-          /\ {o.segs[i] : i \in DOMAIN o.segs} = P /\ Len(o.segs) >= Cardinality(P)
-          /\ P # {} => (IF o.left = 1 THEN 0 ELSE 1) \in ts.trn[t].oris
+          /\ PositionMatches(c, ts, t, o)
           /\ o.ssk = ts.trn[t].on /\ (o.ssk = 1 => o.ss = ts.trn[t].spd /\ o.ssf = ts.trn[t].fwd)
           /\ o.skk = ts.trn[t].on /\ (o.skk = 1 => o.sk = ts.trn[t].kmh)
     /\ {obs.ontrack[i] : i \in DOMAIN obs.ontrack} = {t \in DOMAIN ts.trn : ts.trn[t].on = 1}
+
+(* C17: a bundle = snapshot + every single-entity getter for every id, for an unknown id and for NULL, taken at one
+   quiescent moment.  Single getters must agree with the snapshot's entity (SnapshotEqualsSingles), unknown / NULL
+   queries must come back "not known" with null pointer members and zero counts (safe to free). *)
+Plus(r, f) == [x \in DOMAIN r \cup DOMAIN f |-> IF x \in DOMAIN r THEN r[x] ELSE f[x]]
+AccQuery(c, ts, kb, kd, id) == IF id \in Ids(c, kb) THEN Plus([known |-> 1, type |-> 0], ts[kb][id]) ELSE Plus([known |-> 1, type |-> 1], ts[kd][id])
+BundleMatches(c, ts, b) ==
+    /\ SnapMatches(c, ts, b.snap)
+    /\ DOMAIN b.sg.point = Ids(c, "pb") \cup Ids(c, "pd") /\ \A i \in DOMAIN b.sg.point : b.sg.point[i] = AccQuery(c, ts, "pb", "pd", i)
+    /\ DOMAIN b.sg.signal = Ids(c, "sb") \cup Ids(c, "sd") /\ \A i \in DOMAIN b.sg.signal : b.sg.signal[i] = AccQuery(c, ts, "sb", "sd", i)
+    /\ DOMAIN b.sg.per = DOMAIN ts.per /\ \A i \in DOMAIN ts.per : b.sg.per[i] = Plus([known |-> 1], ts.per[i])
+    /\ DOMAIN b.sg.seg = DOMAIN ts.seg /\ \A i \in DOMAIN ts.seg : NormSeg(b.sg.seg[i]) = Plus([known |-> 1], NormSeg(ts.seg[i]))
+    /\ DOMAIN b.sg.rev = DOMAIN ts.rev /\ \A i \in DOMAIN ts.rev : b.sg.rev[i] = Plus([known |-> 1], ts.rev[i])
+    /\ DOMAIN b.sg.trn = DOMAIN ts.trn /\ \A i \in DOMAIN ts.trn : b.sg.trn[i].known = 1 /\ TrainMatches(ts.trn[i], b.sg.trn[i])
+    /\ DOMAIN b.sg.pos = DOMAIN ts.trn /\ \A i \in DOMAIN ts.trn : PositionMatches(c, ts, i, b.sg.pos[i])
+    /\ DOMAIN b.sg.bst = DOMAIN ts.bst /\ \A i \in DOMAIN ts.bst : NormBst(b.sg.bst[i]) = Plus([known |-> 1], NormBst(ts.bst[i]))
+    /\ DOMAIN b.sg.to = DOMAIN ts.to /\ \A i \in DOMAIN ts.to : b.sg.to[i] = [known |-> 1, cs |-> ts.to[i].cs]
+    /\ \A u \in DOMAIN b.unk : b.unk[u] = [pt |-> 0, ptp |-> 1, sg |-> 0, sgp |-> 1, per |-> 0, perp |-> 1, seg |-> 0, segp |-> 1, segn |-> 0,
+                                          rev |-> 0, revp |-> 1, trn |-> 0, trnp |-> 1, trnn |-> 0, pos |-> 0, posp |-> 1, bst |-> 0, to |-> 0]
+    /\ {b.boards[i] : i \in DOMAIN b.boards} = BoardIds(c) /\ Len(b.boards) = Cardinality(BoardIds(c))
+    /\ {b.trains[i] : i \in DOMAIN b.trains} = TrainIds(c) /\ Len(b.trains) = Cardinality(TrainIds(c))
 =============================================================================
